@@ -456,6 +456,7 @@ def r06c(ctx):
     sa = repo.member(mod + ".LazyMutableClass", "__setattr__")
     construct = mod + ".LazyMutableClass.__setattr__"
     pname = sa.args.args[1].arg if len(sa.args.args) > 1 else "name"
+    vname = sa.args.args[2].arg if len(sa.args.args) > 2 else "value"
 
     def is_store(n):
         return (isinstance(n, ast.Call) and isinstance(n.func, ast.Attribute) and n.func.attr == "__setattr__"
@@ -487,7 +488,7 @@ def r06c(ctx):
             if not inbody:
                 atoms = [ast.UnaryOp(op=ast.Not(), operand=a) for a in atoms] if len(atoms) == 1 else [None]
             pos.extend(atoms)
-        member = other = neg = 0
+        member = other = neg = same_value = 0
         for a in pos:
             if a is None:
                 other += 1
@@ -500,6 +501,9 @@ def r06c(ctx):
                     neg += 1
                 else:
                     other += 1
+            elif isinstance(a, ast.Compare) and vname in {x.id for x in ast.walk(a) if isinstance(x, ast.Name)} \
+                    and isinstance(a.ops[0], (ast.Is, ast.IsNot, ast.Eq, ast.NotEq)):
+                same_value += 1     # see below
             elif isinstance(a, ast.Compare) and len(a.ops) == 1:
                 l, r = ast.unparse(a.left), ast.unparse(a.comparators[0])
                 if isinstance(a.ops[0], ast.In) and l == pname and "_static_attrs" in r:
@@ -512,9 +516,17 @@ def r06c(ctx):
                     other += 1
             elif isinstance(a, ast.Call) and ast.unparse(a.func) == "hasattr" and "_static_attrs" in ast.unparse(a):
                 pass
+            elif isinstance(a, ast.Compare) and vname in {x.id for x in ast.walk(a) if isinstance(x, ast.Name)} \
+                    and isinstance(a.ops[0], (ast.Is, ast.IsNot, ast.Eq, ast.NotEq)):
+                # "skip the clear when the value is (equal to) the one already stored": an in-place edit followed by re-assignment
+                # (obj.attr += d on an array) stores the same object, so this drops required invalidations
+                same_value += 1
             else:
                 other += 1
-        if neg:
+        if same_value:
+            verdict, why = "bad", ("the clear is skipped when the assigned value is (equal to) the stored one: `obj.attr += d` mutates in place and re-assigns "
+                                   "the same object, so static-attribute changes no longer invalidate")
+        elif neg:
             verdict, why = "bad", "cache is cleared when the name is NOT a static attribute"
         elif member and not other and verdict != "bad":
             verdict = "ok"
@@ -665,6 +677,30 @@ def r06d(ctx):
               f"_full_times: {a} | _value_window: {b}", key_detail="n_before clone")
 
 
+def r06e(ctx, classes):
+    """constructors of the lazy ray classes keep private copies of array-valued defining arguments: otherwise an in-place edit of the
+    caller's array changes a static attribute without passing through __setattr__ and the cache survives."""
+    repo = ctx.repo
+    ctx.rule("R06e", "tracer constructors store copies (np.array) of their endpoint arguments; FunctionSignal stores a copy of times", expected=4, kind="N")
+    from .c04 import fresh
+    for ci in classes:
+        if "__init__" not in ci.methods:
+            continue
+        fn = ci.methods["__init__"][1]
+        params = {a.arg for a in fn.args.args}
+        for st in ast.walk(fn):
+            if isinstance(st, ast.Assign) and is_self_attr(st.targets[0]) and st.targets[0].attr in ("from_point", "to_point", "times"):
+                src_names = {x.id for x in ast.walk(st.value) if isinstance(x, ast.Name)}
+                if not (src_names & params) or "parent_tracer" in src_names:
+                    continue        # paths share the (already private) arrays of their tracer by design
+                ctx.check(fresh(st.value, fn, {}), "R06e", f"{ci.qual}.__init__", f"self.{st.targets[0].attr} is a private copy of the argument", u_(st.value),
+                          key_detail=f"{st.targets[0].attr} aliased", loc=ctx.loc(ci.module, st))
+
+
+def u_(n):
+    return ast.unparse(n)
+
+
 def run(ctx):
     classes = lazy_classes(ctx.repo)
     if ctx.tier == "quick":
@@ -673,10 +709,17 @@ def run(ctx):
     ctx.guard(r06b, classes)
     ctx.guard(r06c)
     ctx.guard(r06d)
+    ctx.guard(r06e, classes)
 
 
 SELFTEST = {
     "faults": [
+        {"name": "skip the clear when the same object is re-assigned", "file": "pyrex/internal_functions.py",
+         "old": "        if \"_static_attrs\" in self.__dict__ and name in self._static_attrs:\n            self._clear_cache()",
+         "new": "        if \"_static_attrs\" in self.__dict__ and name in self._static_attrs:\n            if self.__dict__.get(name, None) is not value:\n                self._clear_cache()",
+         "rule": "R06c"},
+        {"name": "tracer keeps the caller's endpoint arrays", "file": "pyrex/ray_tracing.py", "old": "        self.from_point = np.array(from_point)\n        self.to_point = np.array(to_point)\n        self.ice = ice_model\n        self.dz = dz",
+         "new": "        self.from_point = np.asarray(from_point)\n        self.to_point = np.asarray(to_point)\n        self.ice = ice_model\n        self.dz = dz", "rule": "R06e"},
         {"name": "delete _clear_cache() in filter_frequencies", "file": "pyrex/signals.py",
          "old": "        self._clear_cache()\n        for group in self._filters:", "new": "        for group in self._filters:",
          "rule": "R06b", "construct": "FunctionSignal.filter_frequencies"},
